@@ -152,6 +152,16 @@ def check_table(table, cycles, steps, viol, counters, sets, samples):
             rep = {"check": PID, "func": "task_replay", "arg": {"table": table, "cycles": cycles, "step": step}}
             desc = f"table {[dict(interval=a, weight=b, min=c) for a, b, c in table]} cycles={cycles} step={step}"
             if err is None:
+                # the statement fixes how often each move is attempted in a step, not where in the
+                # step the guaranteed attempts sit: compare the distributions of the multisets
+                def collapse(d):
+                    out = {}
+                    for k, v in d.items():
+                        kk = tuple(sorted(k))
+                        out[kk] = out.get(kk, 0.0) + v
+                    return out
+
+                ref, got_seq, got = collapse(ref), got, collapse(got)
                 keys = set(ref) | set(got)
                 worst = max((abs(ref.get(k, 0.0) - got.get(k, 0.0)) for k in keys), default=0.0)
                 if worst > TOL:
@@ -174,7 +184,7 @@ def check_table(table, cycles, steps, viol, counters, sets, samples):
             if err is not None:
                 viol.append({"signature": f"C09/schedule/{err[0]}", "what": f"{err[1]} for {desc}", "replay": rep})
             elif len(samples) < 3 and nontrivial and len(table) > 1:
-                samples.append({"table": table, "cycles": cycles, "step": step, "distribution": {"".join(k): round(v, 6) for k, v in sorted(got.items())}, "executions": st.executions})
+                samples.append({"table": table, "cycles": cycles, "step": step, "distribution_of_attempt_multisets": {"".join(k): round(v, 6) for k, v in sorted(got.items())}, "executions": st.executions})
     finally:
         mc.close()
 
